@@ -947,3 +947,65 @@ Proof.
   assert (e_track c a cur o = e_track c' a cur o) as ->; [|apply IH].
   destruct o; cbn [e_track]; unfold norm_pos; rewrite ?Hb, ?Ht; reflexivity.
 Qed.
+
+(* ---------------------------------------------------------------- no duplicates in answers, all agents listed *)
+
+(* no agent is returned twice *)
+Lemma NoDup_flat_map_select {A : Type} (f : A -> Z) (sel : A -> bool) (l : list A) :
+  NoDup (map f l) -> NoDup (flat_map (fun x => if sel x then [f x] else []) l).
+Proof.
+  induction l as [|x t IH]; intros H; simpl; [constructor|].
+  simpl in H. inversion H as [|? ? Hx Hnd]. subst.
+  destruct (sel x); simpl; [|apply IH; exact Hnd].
+  constructor; [|apply IH; exact Hnd].
+  intros Hin. apply Hx. apply in_flat_map in Hin. destruct Hin as [y [Hy Hin]].
+  destruct (sel y); [|destruct Hin]. destruct Hin as [Hin|[]]. rewrite <- Hin. apply in_map. exact Hy.
+Qed.
+
+Lemma NoDup_map_filter {A : Type} (f : A -> Z) (sel : A -> bool) (l : list A) :
+  NoDup (map f l) -> NoDup (map f (filter sel l)).
+Proof.
+  induction l as [|x t IH]; intros H; simpl; [constructor|].
+  simpl in H. inversion H as [|? ? Hx Hnd]. subst.
+  destruct (sel x); simpl; [|apply IH; exact Hnd].
+  constructor; [|apply IH; exact Hnd].
+  intros Hin. apply Hx. apply in_map_iff in Hin. destruct Hin as [y [Hy Hin]].
+  apply filter_In in Hin. rewrite <- Hy. apply in_map. apply Hin.
+Qed.
+
+Theorem exp_radius_nodup c (m : amap) q r :
+  NoDup (akeys m) -> NoDup (map fst (in_radius c m q r)).
+Proof.
+  intros H. unfold in_radius. apply NoDup_map_filter.
+  unfold distances. rewrite map_map. cbn [fst]. exact H.
+Qed.
+
+
+(* calculate_distances(q) lists every agent of the space exactly once, in order, with its distance *)
+Theorem exp_distances_all c (m : amap) q :
+  map fst (distances c m q) = akeys m /\
+  forall a p, NoDup (akeys m) -> In (a, p) m ->
+    In (a, dist2 (ec_torus c) (ec_bounds c) p q) (distances c m q).
+Proof.
+  split.
+  - unfold distances, akeys. rewrite map_map. reflexivity.
+  - intros a p _ Hin. apply distances_spec. exists p. auto.
+Qed.
+
+(* agent.get_nearest_neighbors(k): an accepted outcome has k distinct other agents, none farther from the
+   asking agent than an agent left out *)
+Theorem nearest_nbrs_sound ds k a out :
+  knn_legal ds (S k) (a :: out) = true ->
+  length out = k /\ NoDup out /\ ~ In a out /\ (forall b, In b out -> In b (akeys ds)) /\
+  (forall b x d, In b out -> In (x, d) ds -> x <> a -> ~ In x out -> dist_of ds b <= d).
+Proof.
+  intros H. destruct (knn_legal_sound _ _ _ H) as [H1 [H2 [H3 H4]]].
+  simpl in H1. inversion H2 as [|? ? Ha Hnd]. subst.
+  repeat split.
+  - lia.
+  - exact Hnd.
+  - exact Ha.
+  - intros b Hb. apply H3. right. exact Hb.
+  - intros b x d Hb Hx Hne Hnx. apply (H4 b x d); [right; exact Hb|exact Hx|].
+    intros [Hin|Hin]; [congruence|contradiction].
+Qed.
